@@ -4,6 +4,7 @@
 From Coq Require Import List ZArith NArith Bool Lia.
 From BL Require Import Base.Bytes Reader.Entry Reader.EventStream Reader.RobustProofs Render.Time Render.TimeProofs
   Mser.Types Mser.Tag Mser.Visit Mser.RobustProofs Mser.BoundProofs Gen.SrcFacts.
+From BL Require Mser.TagProofs Mser.VisitProofs.
 Import ListNotations.
 
 Definition cfg_src := mkTC SrcFacts.time_floor SrcFacts.time_yy_nonneg SrcFacts.time_tz_wide.
@@ -62,6 +63,12 @@ Proof.
   intros tag input. apply callbacks_bounded.
 Qed.
 Print Assumptions C09_callbacks_bounded_without_backrefs.
+(** in particular for the tag of every loggable type of the C06 universe (names well formed, empty structs not shadowed by a definition in
+    the complete tag) and EVERY input - not only serialized values of that type *)
+Theorem C09_callbacks_bounded_for_every_loggable_type : forall t input, Mser.TagProofs.ty_ok t = true -> Mser.VisitProofs.empties (tag t) t ->
+  (callbacks_of (visit false nospec 2048 (tag t) (tag t) input) <= 4 * length (tag t) + 16 * length (tag t) * length (tag t) * length input)%nat.
+Proof. exact callbacks_bounded_typed. Qed.
+Print Assumptions C09_callbacks_bounded_for_every_loggable_type.
 Example C09_bound_nonvacuous : SrcFacts.visit_max_recursion = 2048%N /\ noback ordinary_tag 2048 ordinary_tag = true /\ noback d6a_tag 2048 d6a_tag = false.
 Proof. split; [reflexivity|]. split; [exact ordinary_noback|exact d6a_has_backref]. Qed.
 
